@@ -244,6 +244,9 @@ namespace pika::thread_pool_bulk_detail {
                                 set_value_end_loop_visitor{op_state}, std::move(op_state->ts));
                         }
                     }
+#if defined(PIKA_VERIF)
+                    PIKA_VERIF_POINT(1109, nullptr, worker_thread);
+#endif
                 }
 
                 // Entry point for the worker thread. It will attempt to
@@ -325,6 +328,9 @@ namespace pika::thread_pool_bulk_detail {
                 task_function task_f{this->op_state, n, chunk_size, worker_thread};
 
                 auto& queue = op_state->queues[worker_thread].data_;
+#if defined(PIKA_VERIF)
+                PIKA_VERIF_POINT(1108, op_state, worker_thread);
+#endif
                 if (queue.empty())
                 {
                     // If the queue is empty we don't spawn a task. We
